@@ -69,14 +69,21 @@ func runC16(c *core.Ctx) {
 	if hasHelp(argv) {
 		return
 	}
+	withSub := pi%6 == 3 // the command also has a sub-command (never named on these command lines): the generated spec is the same
 	single := func(q *Prog) *drive.App {
 		a := drive.Single(q)
 		a.Version, a.ArgsFirst = version, argsFirst
+		if withSub {
+			a.Root.Kids = []*drive.Cmd{{ID: 1, Aliases: []string{"zz-sub-command"}, Prog: &Prog{}, Parent: a.Root, Action: drive.Beh{Kind: drive.BehReturn}}}
+		}
 		return a
 	}
 	versionRequest := version && len(argv) > 0 && (argv[0] == "-V" || argv[0] == "--version")
 	d := descOf(expl, argv)
-	d.Note = fmt.Sprintf("twin without spec vs explicit spec (version flag declared: %v, arguments declared first: %v)", version, argsFirst)
+	d.Note = fmt.Sprintf("twin without spec vs explicit spec (version flag declared: %v, arguments declared first: %v, with a sub-command: %v)", version, argsFirst, withSub)
+	if withSub {
+		c.Inc("twins_with_a_subcommand")
+	}
 	c.Journal(d)
 	oa := drive.Run(single(p), argv)
 	ob := drive.Run(single(expl), argv)
@@ -132,6 +139,9 @@ func runC16(c *core.Ctx) {
 		ha := usageLine(drive.Run(single(p), []string{"--help"}).Stderr)
 		hb := usageLine(drive.Run(single(expl), []string{"--help"}).Stderr)
 		want := strings.TrimRight("Usage: app "+expl.Spec, " ")
+		if withSub {
+			want += " COMMAND [arg...]"
+		}
 		c.LibDone()
 		c.Eval()
 		if ha != want || hb != want {
